@@ -22,10 +22,10 @@ ASSUMPTIONS = [
     "coverage and exclusivity by R3 (vf/ref/acl.py); cases where the ideal coverage and the implementation's documented winner rule disagree (known findings of C06) are skipped and counted",
     "programs never yield rows in negated form",
 ]
-FLOORS = {"quick": {"runs": 1200, "outcome_ok": 300, "outcome_generator_error": 150, "outcome_not_exclusive": 60, "block_contexts_entered": 2000, "annotated_runs": 80, "annotated_rows": 200, "cases_with_a_silent_generator": 300, "cases_with_three_differently_written_rules": 300},
-          "thorough": {"runs": 50000, "outcome_ok": 12000, "outcome_generator_error": 6000, "outcome_not_exclusive": 2500, "block_contexts_entered": 80000, "annotated_runs": 3000, "annotated_rows": 8000, "cases_with_a_silent_generator": 12000, "cases_with_three_differently_written_rules": 12000}}
+FLOORS = {"quick": {"runs": 1200, "outcome_ok": 300, "outcome_generator_error": 150, "outcome_not_exclusive": 60, "block_contexts_entered": 2000, "annotated_runs": 80, "annotated_rows": 200, "cases_with_a_silent_generator": 300, "cases_with_three_differently_written_rules": 300, "comment_rows_yielded_inside_blocks": 200, "acl_comment_lines": 3000, "rules_mentioning_interface_not_at_start": 4000},
+          "thorough": {"runs": 50000, "outcome_ok": 12000, "outcome_generator_error": 6000, "outcome_not_exclusive": 2500, "block_contexts_entered": 80000, "annotated_runs": 3000, "annotated_rows": 8000, "cases_with_a_silent_generator": 12000, "cases_with_three_differently_written_rules": 12000, "comment_rows_yielded_inside_blocks": 4000, "acl_comment_lines": 60000, "rules_mentioning_interface_not_at_start": 80000}}
 VENDORS = ["huawei", "cisco", "arista", "nexus"]
-HEADS = ["a", "b", "c", "interface", "router", "x"]
+HEADS = ["a", "b", "c", "interface", "router", "x", "ntp source-interface", "c passive-interface"]  # the word `interface` only makes a rule not deletable by default at its start
 KEYS = ["k1", "k2", "e1", "10"]
 
 
@@ -104,6 +104,8 @@ def ref_paths(program, prefix=()):
                 out += ref_paths(body, prefix + (row,))
             else:
                 out += ref_paths(body, prefix)
+        elif k == "c":
+            pass  # a vendor comment row is not a line of configuration
         elif k == "mb":
             p = prefix
             for blk in st[1]:
@@ -128,6 +130,8 @@ def make_run(program, counter):
                     yield tup(st[1])
                 elif k == "m":
                     yield "\n".join("  " * d + row for d, row in st[1])
+                elif k == "c":
+                    yield "#"
                 elif k == "b":
                     counter[0] += 1
                     with self.block(*st[1]):
@@ -219,7 +223,25 @@ def acl_for(rng, paths, mode, shared_rows=()):
 def render_indented(level, rng):
     text = A.render(level)
     ind = " " * rng.choice([0, 0, 4, 8, 12])
-    return "\n" + "\n".join(ind + ln for ln in text.split("\n")) + "\n" + ind
+    lines = []
+    for ln in text.split("\n"):
+        if rng.random() < 0.12 and ln.strip():
+            # a `# ...` comment line inside the ACL text, written at the indentation of the rule it precedes
+            lines.append(" " * (len(ln) - len(ln.lstrip(" "))) + rng.choice(["# note", "#", "#interface *", "# a ~ %global"]))
+        lines.append(ln)
+    return "\n" + "\n".join(ind + ln for ln in lines) + "\n" + ind
+
+
+def add_comment_yields(rng, program, depth=0):
+    """huawei: a generator may yield the separator/comment row `#` inside a block; it is not a line of configuration and the rows after it stay in their block"""
+    n = 0
+    for st in program:
+        if st[0] in ("b", "bi", "mb") and st[2]:
+            n += add_comment_yields(rng, st[2], depth + 1)
+    if depth >= 1 and program and rng.random() < 0.5:
+        program.insert(rng.randrange(len(program) + 1), ["c"])
+        n += 1
+    return n
 
 
 def expected_outcome(gens, prefix):
@@ -341,6 +363,10 @@ def make_case(seed, silent=False, ranked=False):
         donor = srng.choice([g for g in gens if g["paths"]])
         acl, _ = acl_for(srng, [tuple(x_) for x_ in donor["paths"]], "all")
         gens.insert(srng.randrange(len(gens) + 1), {"name": "GenSilent", "program": [], "paths": [], "acl": acl, "mode": "all"})
+    if vname == "huawei" and rng.random() < 0.3:
+        crng = random.Random(seed ^ 0xC0)
+        for g in gens:
+            g["comments"] = add_comment_yields(crng, g["program"])
     for g in gens:
         g["paths"] = [tuple(p) for p in g["paths"]]
     return vname, gens, rng
@@ -384,6 +410,9 @@ def check_case(seed, acc, silent=False, ranked=False):
     except Exception as e:
         got = ("exception", "%s: %s" % (type(e).__name__, str(e)[:200]))
     acc.count("runs")
+    acc.count("comment_rows_yielded_inside_blocks", sum(g.get("comments", 0) for g in gens))
+    acc.count("acl_comment_lines", sum(1 for t in texts for ln in t.split("\n") if ln.strip().startswith("#")))
+    acc.count("rules_mentioning_interface_not_at_start", sum(1 for t in texts for ln in t.split("\n") if "-interface" in ln and not ln.strip().startswith("#")))
     acc.count("block_contexts_entered", counter[0])
     acc.count("outcome_" + exp[0])
     nested = any(len(p) > 1 for g in gens for p in g["paths"])
